@@ -83,19 +83,30 @@ func (r *ComDoc) ListDir(parent *DirEnt) ([]*DirEnt, error) {
 	if parent.Type != DirRoot && parent.Type != DirStorage {
 		return nil, errors.New("ListDir() on a non-directory object")
 	}
-	top := &r.Files[parent.StorageRoot]
-	stack := []*DirEnt{top}
+	if parent.StorageRoot == -1 {
+		// empty storage
+		return nil, nil
+	}
+	stack := []int32{parent.StorageRoot}
 	var files []*DirEnt
 	for len(stack) > 0 {
 		i := len(stack) - 1
-		item := stack[i]
+		index := stack[i]
 		stack = stack[:i]
+		if index < 0 || int(index) >= len(r.Files) {
+			return nil, errors.New("directory tree refers to an entry outside the directory")
+		}
+		// a tree can't have more nodes than the directory has entries
+		if len(files) >= len(r.Files) {
+			return nil, errors.New("directory tree is cyclic")
+		}
+		item := &r.Files[index]
 		files = append(files, item)
 		if item.LeftChild != -1 {
-			stack = append(stack, &r.Files[item.LeftChild])
+			stack = append(stack, item.LeftChild)
 		}
 		if item.RightChild != -1 {
-			stack = append(stack, &r.Files[item.RightChild])
+			stack = append(stack, item.RightChild)
 		}
 	}
 	return files, nil
